@@ -358,11 +358,15 @@ func runConcurrentListedAudit(h *Harness, j int) {
 		}
 		// among them, certificates of ANOTHER issuer that carry the very same serial: no list of their issuer exists,
 		// the loaded list says nothing about them, whatever the lookups running beside them are asking for
+		// (the listed certificate beside them is ONE certificate presented by several connections at once: whatever
+		// handshakes for the same certificate share, a rejection is a rejection for each of them)
 		var others []*HS
+		same := w.ChainFor(w.A.Issue(EEOpts{Serial: loc.Common, CDP: []string{loc.URL}}), w.A)
 		for i, ko := 0, 1+tp.Int(3); i < ko; i++ {
 			others = append(others, h.StartHandshake(n, fmt.Sprintf("other-issuer%d.%d", round, i), w.ChainFor(w.B.Issue(EEOpts{Serial: loc.Common, CDP: []string{}}), w.B)))
-			calls = append(calls, h.StartHandshake(n, fmt.Sprintf("listed%d.%d+", round, i), w.ChainFor(w.A.Issue(EEOpts{Serial: loc.Common, CDP: []string{loc.URL}}), w.A)))
+			calls = append(calls, h.StartHandshake(n, fmt.Sprintf("listed%d.%d+", round, i), same))
 		}
+		calls = append(calls, h.StartHandshake(n, fmt.Sprintf("listed%d.same", round), same))
 		var ts []*Task
 		for _, c := range calls {
 			ts = append(ts, c.Task)
